@@ -261,7 +261,10 @@ class Natives(object):
         # ---- Box
         def box_new(m, th, a, g):
             tg = []
-            for cg, c in m.alloc_n(th, ('box',) + m.cur_site, 'box@' + m.cur_site_name, g):
+            def box_dead(c, gg):
+                fr = m.freed.get(c.id)
+                return fr is not None and restrict(fr, gg) is TRUE
+            for cg, c in m.alloc_n(th, ('box',) + m.cur_site, 'box@' + m.cur_site_name, g, dead=box_dead):
                 gg = And(g, cg)
                 if c.id in m.freed: m.freed[c.id] = And(m.freed[c.id], Not(gg))
                 m.store(Ref.to(c), a[0], gg)
@@ -290,7 +293,12 @@ class Natives(object):
         def arc_new(m, th, a, g):
             pinned = s.arc_pinned(m.cur_callee)
             tg = []
-            for cg, c in m.alloc_n(th, ('arc',) + m.cur_site, 'arc@' + m.cur_site_name, g):
+            def arc_dead(c, gg):
+                if c.id in s.pinned: return False
+                v = m.load(Ref.to(c), gg)
+                if not isinstance(v, St) or not isinstance(v.f.get('strong'), E): return False
+                return restrict(v.f['strong'], gg) is ZERO and v.f.get('weak') is ONE       # weak != 1: a Weak may still point here
+            for cg, c in m.alloc_n(th, ('arc',) + m.cur_site, 'arc@' + m.cur_site_name, g, dead=arc_dead):
                 m.store(Ref.to(c), St('ArcInner', {'strong': ONE, 'weak': ONE, 'data': a[0]}), And(g, cg))
                 if pinned: s.pinned.add(c.id)
                 tg.append((cg, c, ()))
@@ -328,6 +336,9 @@ class Natives(object):
         def arc_downgrade(m, th, a, g):
             arc = m.load_typed(a[0], g, ('Arc',))
             if not isinstance(arc, St): return POISON
+            for x, c, q in arc.f['p'].tg:
+                # ghost: the allocation has (had) Weak references, so its cell is never re-used for a later allocation of the same site
+                m.store(Ref([(TRUE, c, q + (('f', 'weak'),))]), BV(2), And(g, x))
             return St('Weak', {'p': arc.f['p']})
         R('Arc::downgrade', arc_downgrade)
         R('__weak_drop', lambda m, th, a, g: UNIT)
@@ -400,6 +411,7 @@ class Natives(object):
             f = {}
             for t in range(m.nthreads_max):
                 f['sleep%d' % t] = FALSE; f['note%d' % t] = FALSE
+            f['lost'] = FALSE       # ghost: some notify on this condvar found nobody asleep (used to tell finding D3 from other hangs)
             return St('Condvar', f)
         R('Condvar::new', cv_new)
         def wait_en(m, th, a, ph, g):
@@ -414,6 +426,7 @@ class Natives(object):
             if not isinstance(gd, St): return POISON
             mu = gd.f['m']
             if ph == 0:
+                th.sleep_at = Ite(g, BV(m.now), getattr(th, 'sleep_at', ZERO))     # ghost: when this thread last went to sleep on a condvar
                 m.store(mu.proj(('f', 'locked')), FALSE, g)
                 m.store(cv.proj(('f', 'sleep%d' % th.tid)), TRUE, g)
                 m.store(cv.proj(('f', 'note%d' % th.tid)), FALSE, g)
@@ -434,7 +447,8 @@ class Natives(object):
                     m.store(cv.proj(('f', 'note%d' % t)), TRUE, And(g, pick))
                     if not all_:
                         m.oblige('bound', 'notify_one with more than one sleeper on one condvar', And(g, cand, done))
-                        done = Or(done, cand)
+                    done = Or(done, cand)
+                m.store(cv.proj(('f', 'lost')), TRUE, And(g, Not(done)))
                 return UNIT
             return f
         R('Condvar::notify_one', notify(False), visible=True)
@@ -596,6 +610,33 @@ class Natives(object):
         R('Vec::pop VecDeque::pop_back', lambda m, th, a, g: vec_pop_back(m, a[0], g))
         R('Vec::remove', lambda m, th, a, g: vec_remove(m, a[0], a[1], g))
         T('Deref', 'deref', 'Vec', ident); T('DerefMut', 'deref_mut', 'Vec', ident)
+        # element access by position: Option<&T>
+        def vec_at(which):
+            def f(m, th, a, g):
+                vec = a[0]
+                n = m.load(vec.proj(('f', 'len')), g)
+                if not isinstance(n, E): raise EncodeError('element access on a non-vector in %s' % m.cur_site_name)
+                if which == 'first': idx = ZERO; has = Ugt(n, ZERO)
+                elif which == 'last': idx = Sub(n, ONE); has = Ugt(n, ZERO)
+                else: idx = a[1]; has = Ult(idx, n)
+                elem = Ref(norm_refs([(And(x, restrict(Eq(idx, BV(k)), g)), c, p + (('f', k),)) for k in range(m.CAP) for x, c, p in vec.tg]))
+                return En(OPT, Ite(has, ONE, ZERO), {1: St(None, {0: elem})})
+            return f
+        R('slice::first slice::first_mut VecDeque::front VecDeque::front_mut', vec_at('first'))
+        R('slice::last slice::last_mut VecDeque::back VecDeque::back_mut', vec_at('last'))
+        R('slice::get slice::get_mut VecDeque::get VecDeque::get_mut', vec_at('get'))
+        R('slice::len', lambda m, th, a, g: m.load(a[0].proj(('f', 'len')), g))
+        R('slice::is_empty', lambda m, th, a, g: Eq(m.load(a[0].proj(('f', 'len')), g), ZERO))
+        R('VecDeque::iter VecDeque::iter_mut', lambda m, th, a, g: St('Iter', {'v': a[0], 'i': ZERO}))
+        def opt_replace(m, th, a, g):
+            old = m.load(a[0], g); m.store(a[0], Some(a[1]), g); return old
+        R('Option::replace', opt_replace)
+        def opt_copied(m, th, a, g):
+            v = a[0]
+            if not isinstance(v, En): return POISON
+            inner = payload(v, 1)
+            return En(OPT, v.disc, {1: St(None, {0: m.load(inner, And(g, Eq(v.disc, ONE))) if isinstance(inner, Ref) else inner})})
+        R('Option::copied', opt_copied)
         def vec_index(m, th, a, g):
             vec = a[0]; idx = a[1]
             if not isinstance(idx, E): return Ref([])
